@@ -532,13 +532,13 @@ func c06Target(c *Ctx) {
 			args := callArgs(&pc.call.Call)
 			switch calleeID(pc.call) {
 			case hopID("authgrants", "AuthgrantMapSync", "AddAuthGrant"):
-				if len(args) >= 2 && paramIndex(ag, args[1]) == 1 {
+				if len(args) >= 2 && paramIndex(ag, p.Resolve(args[1], pc.at)) == 1 {
 					grant = true
 				}
 			case hopID("authkeys", "SyncAuthKeySet", "AddKey"):
 				if len(args) == 2 {
 					root, _ := accessPath(p.Deref(args[1], pc.at))
-					if paramIndex(ag, root) == 1 && endsInField(p.Deref(args[1], pc.at), fPub, false) {
+					if paramIndex(ag, p.Resolve(root, pc.at)) == 1 && endsInField(p.Deref(args[1], pc.at), fPub, false) {
 						key = true
 					}
 				}
